@@ -10,6 +10,7 @@ EVERY class of a family is traced and must yield the family's tree (so no class 
 can influence the frame); the class lists are printed too and compared with the regenerated registries in Lean.
 The constructors that assemble their frame from a byte tuple (special commands, `int.from_bytes`) and the event
 constructors are not translated (they stay on the differential tie)."""
+from common import exc_name  # noqa: E402
 import random
 
 import symtrace as st
@@ -131,7 +132,7 @@ def _validate(rep, classes, attr, bits, rng):
                     try:
                         want = ('ok', c(*args).frame.as_integer)
                     except Exception as e:  # noqa
-                        want = ('raise', type(e).__name__)
+                        want = ('raise', exc_name(e))
                     if got != want:
                         bad.append((c.__name__, str(d), str(i), p, got, want))
     return bad
